@@ -253,6 +253,24 @@ class Part(dict):
         self["notes"][k] = self["notes"].get(k, 0) + n
 
 
+
+# -------------------------------------------------------------------- the mixed-history stage (spec/DF.tla)
+# properties whose texts the clauses of DF.tla come from; the stage runs inside their checks and keeps only what belongs
+# to the property being checked (harness/props/df.py::owners_of)
+DF_STAGE_THOROUGH = ("C02", "C03", "C07", "C08", "C09", "C10", "C12", "C13", "C14", "C16", "C17")
+DF_STAGE_QUICK_LITE = ("C03", "C13", "C14")
+
+
+def df_stage(ctx, df):
+    """run the DF stage for the property of ctx when it is one of its owners (called just before finish)"""
+    if os.environ.get("DF_VERIF_NO_DF_STAGE"):
+        return
+    from .props import df as _dfstage
+    if ctx.tier == "thorough" and ctx.prop in DF_STAGE_THOROUGH:
+        _dfstage.run_stage(ctx, df, owner=ctx.prop, lite=False)
+    elif ctx.tier == "quick" and ctx.prop in DF_STAGE_QUICK_LITE:
+        _dfstage.run_stage(ctx, df, owner=ctx.prop, lite=True)
+
 # -------------------------------------------------------------------- findings / evidence
 def load_known():
     """known_findings.json plus provisional fragments known_findings.d/*.json (merged at integration)."""
